@@ -2,9 +2,10 @@
 # tools/seedimport.sh Cnn : copies the sub-agent's results for property Cnn from /tmp/out-Cnn into /verif/seeded/Cnn-A and Cnn-B
 set -u
 id="$1"; cd "$(dirname "$0")/.."
-for x in A B C D; do
+for x in A B C D E F G H; do
   [ -f "/tmp/out-$id/patch-$x.diff" ] || continue
-  d="seeded/$id-$x"; rm -rf "$d"; mkdir -p "$d"
+  d="seeded/$id-$x"; [ -d "$d" ] && continue   # already imported: keep its results
+  mkdir -p "$d"
   cp "/tmp/out-$id/patch-$x.diff" "$d/patch.diff"
   [ -f "/tmp/out-$id/meta-$x.json" ] && cp "/tmp/out-$id/meta-$x.json" "$d/meta.json"
   [ -d "/tmp/out-$id/demo-$x" ] && cp -r "/tmp/out-$id/demo-$x" "$d/demo"
